@@ -443,6 +443,7 @@ def genexp_for_loops(tree: ast.Module) -> None:
         return {n.id for n in ast.walk(fn) if isinstance(n, ast.Name)} | {a.arg for n in ast.walk(fn) if isinstance(n, ast.arguments) for a in n.posonlyargs + n.args + n.kwonlyargs}
 
     for fn in [n for n in ast.walk(tree) if isinstance(n, (ast.FunctionDef, ast.AsyncFunctionDef))]:
+      for _round in range(4):
         for holder in ast.walk(fn):
             for fld in ("body", "orelse", "finalbody"):
                 body = getattr(holder, fld, None)
@@ -1946,3 +1947,153 @@ def deferred_job_list(tree: ast.Module) -> None:
                     body[i - 1:j + 1] = new
                     i = i - 1 + len(new)
     ast.fix_missing_locations(tree)
+
+
+def inline_single_use_genexps(tree: ast.Module) -> None:
+    """g = (E for v in IT if C)   bound once, read once - as the iterable of a `for` statement or of another generator expression / comprehension
+    - with nothing but other such bindings between the binding and the use: the expression is written where it is consumed (a lazy pipeline
+    `a = (..); b = (.. for x in a ..); for y in b:` is one loop nest)."""
+    for fn in [n for n in ast.walk(tree) if isinstance(n, (ast.FunctionDef, ast.AsyncFunctionDef))]:
+        for _ in range(6):
+            changed = False
+            for holder in ast.walk(fn):
+                for fld in ("body", "orelse", "finalbody"):
+                    body = getattr(holder, fld, None)
+                    if not (isinstance(body, list) and body and isinstance(body[0], ast.stmt)):
+                        continue
+                    for i, st in enumerate(body):
+                        if not (isinstance(st, ast.Assign) and len(st.targets) == 1 and isinstance(st.targets[0], ast.Name) and isinstance(st.value, ast.GeneratorExp)):
+                            continue
+                        g = st.targets[0].id
+                        if sum(1 for n in ast.walk(fn) if isinstance(n, ast.Name) and n.id == g and isinstance(n.ctx, (ast.Store, ast.Del))) != 1:
+                            continue
+                        loads = [n for n in ast.walk(fn) if isinstance(n, ast.Name) and n.id == g and isinstance(n.ctx, ast.Load)]
+                        if len(loads) != 1:
+                            continue
+                        # the use must be in one of the following statements of this block, everything in between being a generator binding
+                        j = i + 1
+                        while j < len(body) and not any(n is loads[0] for n in ast.walk(body[j])):
+                            if not (isinstance(body[j], ast.Assign) and isinstance(body[j].value, ast.GeneratorExp)):
+                                break
+                            j += 1
+                        if j >= len(body) or not any(n is loads[0] for n in ast.walk(body[j])):
+                            continue
+                        use_st = body[j]
+                        site = None
+                        if isinstance(use_st, ast.For) and use_st.iter is loads[0]:
+                            site = (use_st, "iter")
+                        else:
+                            for q in ast.walk(use_st.value if isinstance(use_st, ast.Assign) else use_st):
+                                if isinstance(q, ast.comprehension) and q.iter is loads[0]:
+                                    # only the first generator's iterable is evaluated at once; ours must be that one of an outermost genexp
+                                    site = (q, "iter")
+                        if site is None:
+                            continue
+                        setattr(site[0], site[1], st.value)
+                        del body[i]
+                        changed = True
+                        break
+                    if changed:
+                        break
+                if changed:
+                    break
+            if not changed:
+                break
+    ast.fix_missing_locations(tree)
+
+
+def flag_loops(tree: ast.Module) -> None:
+    """for v in IT: ..; if C: [..;] flag = True; break  /  else: flag = False  ;  if flag: S
+         ->  for v in IT: ..; if C: [..;] S; break
+    (flag is a local used nowhere else; S has no break / continue).  Also the mirrored `if not flag: S` with S moved into the else clause."""
+    for fn in [n for n in ast.walk(tree) if isinstance(n, (ast.FunctionDef, ast.AsyncFunctionDef))]:
+        for holder in ast.walk(fn):
+            for fld in ("body", "orelse", "finalbody"):
+                body = getattr(holder, fld, None)
+                if not (isinstance(body, list) and len(body) >= 2 and isinstance(body[0], ast.stmt)):
+                    continue
+                for i in range(len(body) - 1):
+                    st, nxt = body[i], body[i + 1]
+                    if not (isinstance(st, ast.For) and len(st.orelse) == 1 and isinstance(st.orelse[0], ast.Assign) and len(st.orelse[0].targets) == 1 and isinstance(st.orelse[0].targets[0], ast.Name)
+                            and isinstance(st.orelse[0].value, ast.Constant) and st.orelse[0].value.value is False):
+                        continue
+                    flag = st.orelse[0].targets[0].id
+                    if not (isinstance(nxt, ast.If) and not nxt.orelse and isinstance(nxt.test, ast.Name) and nxt.test.id == flag):
+                        continue
+                    # the only `flag = True` sits right before a break of this loop
+                    sets = [n for n in ast.walk(st) if isinstance(n, ast.Assign) and len(n.targets) == 1 and isinstance(n.targets[0], ast.Name) and n.targets[0].id == flag]
+                    if len(sets) != 2:
+                        continue
+                    total = sum(1 for n in ast.walk(fn) if isinstance(n, ast.Name) and n.id == flag)
+                    if total != 3:
+                        continue
+                    if any(isinstance(n, (ast.Break, ast.Continue)) for x in nxt.body for n in ast.walk(x)):
+                        continue
+                    done = False
+
+                    def patch(stmts: List[ast.stmt]) -> bool:
+                        for k, x in enumerate(stmts):
+                            if isinstance(x, ast.Assign) and x in sets and isinstance(x.value, ast.Constant) and x.value.value is True and k + 1 < len(stmts) and isinstance(stmts[k + 1], ast.Break):
+                                stmts[k:k + 1] = nxt.body
+                                return True
+                            if isinstance(x, ast.If) and (patch(x.body) or patch(x.orelse)):
+                                return True
+                        return False
+                    if patch(st.body):
+                        st.orelse = []
+                        del body[i + 1]
+                        break
+    ast.fix_missing_locations(tree)
+
+
+def inline_loop_iter_temps(tree: ast.Module) -> None:
+    """t = E; for v in t: ..   with t assigned once and read only there: for v in E: ..   (the iterable is evaluated at the same point)."""
+    for fn in [n for n in ast.walk(tree) if isinstance(n, (ast.FunctionDef, ast.AsyncFunctionDef))]:
+        for holder in ast.walk(fn):
+            for fld in ("body", "orelse", "finalbody"):
+                body = getattr(holder, fld, None)
+                if not (isinstance(body, list) and len(body) >= 2 and isinstance(body[0], ast.stmt)):
+                    continue
+                i = 0
+                while i < len(body) - 1:
+                    st, nxt = body[i], body[i + 1]
+                    if isinstance(st, ast.Assign) and len(st.targets) == 1 and isinstance(st.targets[0], ast.Name) and isinstance(nxt, ast.For) and isinstance(nxt.iter, ast.Name) and nxt.iter.id == st.targets[0].id:
+                        t = st.targets[0].id
+                        if sum(1 for n in ast.walk(fn) if isinstance(n, ast.Name) and n.id == t) == 2:
+                            nxt.iter = st.value
+                            del body[i]
+                            continue
+                    i += 1
+    ast.fix_missing_locations(tree)
+
+
+def drop_dead_pure_stores(tree: ast.Module) -> None:
+    """x = <read-only expression> where the local x is never read (and not declared nonlocal / global): the statement is dropped."""
+    for fn in [n for n in ast.walk(tree) if isinstance(n, (ast.FunctionDef, ast.AsyncFunctionDef))]:
+        declared = {nm for n in ast.walk(fn) if isinstance(n, (ast.Nonlocal, ast.Global)) for nm in n.names}
+        if any(isinstance(n, ast.Call) and isinstance(n.func, ast.Name) and n.func.id in ("locals", "vars", "eval", "exec") for n in ast.walk(fn)):
+            continue
+        loads = {n.id for n in ast.walk(fn) if isinstance(n, ast.Name) and isinstance(n.ctx, (ast.Load, ast.Del))}
+        for holder in ast.walk(fn):
+            for fld in ("body", "orelse", "finalbody"):
+                body = getattr(holder, fld, None)
+                if not (isinstance(body, list) and body and isinstance(body[0], ast.stmt)):
+                    continue
+                new = [st for st in body if not (isinstance(st, ast.Assign) and len(st.targets) == 1 and isinstance(st.targets[0], ast.Name) and st.targets[0].id not in loads
+                                                 and st.targets[0].id not in declared and st.targets[0].id.startswith("_") and _read_only(st.value))]
+                if len(new) != len(body):
+                    setattr(holder, fld, new or [ast.copy_location(ast.Pass(), body[0])])
+
+
+def distinct_loop_lines(tree: ast.Module) -> None:
+    """The path effects name a loop by its line.  Loops that the normal form created from one source line (an inlined generator pipeline) get
+    distinct synthetic line numbers (original + k * 100000), so that 'leaving the inner loop' and 'leaving the outer loop' stay different."""
+    for fn in [n for n in ast.walk(tree) if isinstance(n, (ast.FunctionDef, ast.AsyncFunctionDef))]:
+        seen: Dict[int, int] = {}
+        for n in ast.walk(fn):
+            if isinstance(n, (ast.For, ast.While, ast.AsyncFor)):
+                ln = getattr(n, "lineno", 0)
+                k = seen.get(ln, 0)
+                seen[ln] = k + 1
+                if k:
+                    n.lineno = ln + 7000000 * k
